@@ -151,7 +151,9 @@ def rand_program(rng, style="mixed", pool="plain", n_in=None, n_items=None, bb=0
         r = rng.random()
         n_pins = sum(len(t2["ins"]) + len(t2["outs"]) for it2 in items if it2["k"] == "bb" for t2 in bbtypes if t2["type"] == it2["type"])
         if bb and r < bb and len(rest) >= 1 and n_in + n_pins + 4 <= 11:
-            t = {"type": "ff", "ins": ["CK", "D"], "outs": ["Q", "QN"]} if rng.random() < 0.5 else {"type": "cell", "ins": ["A"], "outs": ["Y"]}
+            # library cells are sometimes called like a primitive in another case (BUF, NAND ...): identifiers are case-sensitive
+            t = ({"type": rng.choice(["ff", "ff", "ff", "NAND", "Xor"]), "ins": ["CK", "D"], "outs": ["Q", "QN"]} if rng.random() < 0.5
+                 else {"type": rng.choice(["cell", "cell", "cell", "BUF", "Not"]), "ins": ["A"], "outs": ["Y"]})
             if t not in bbtypes:
                 bbtypes.append(t)
             conns = []
@@ -374,7 +376,7 @@ def fast_program(rng, bb=0.3):
 
 
 def bench_program(rng, n_in=None):
-    names = ["a", "b", "c", "d", "n1", "n2", "n3", "q1", "q2", "y", "z", "G17", "n_20"]
+    names = ["a", "b", "c", "d", "n1", "n2", "n3", "q1", "q2", "y", "z", "G17", "n_20", "a_dup", "b_dup_0"]
     rng.shuffle(names)
     n_in = n_in or rng.randint(1, 3)
     inputs, rest = names[:n_in], names[n_in:]
